@@ -44,12 +44,24 @@ GROUPS = {"Long": "Long", "OvA": "OvA,OvB", "OvB": "OvA,OvB", "Boom": "Boom", "I
 SNIPPETS = ("Long: 3", "OvB")
 
 
+# OvB is declared in two overlap lists ([OvA, OvB] and [OvB, OvC]).  The oracle works with groups (a partition), so programs
+# use either OvA or OvC next to OvB, never both; in programs with OvC the group of OvB is {OvB, OvC}.
+GROUPS_WITH_OVC = {"Long": "Long", "OvB": "OvB,OvC", "OvC": "OvB,OvC", "OvA": "OvA", "Boom": "Boom", "Inst": "Inst"}
+_active_groups = GROUPS
+
+
+def use_groups_for(lines):
+    global _active_groups
+    _active_groups = GROUPS_WITH_OVC if any(str(l).strip().startswith("OvC") for l in lines) else GROUPS
+
+
 def group_of(name):
-    return GROUPS.get(name, name)
+    return _active_groups.get(name, name)
 
 
 def run_one(lines, x, schedule, keep_trace=False):
     """-> (problems, info, trace)."""
+    use_groups_for(lines)
     run = Run("\n".join(lines), observe=())
     reqlog = []          # (tick, name, instance id, number of command events so far)
     orig_schedule = run.engine.schedule_execution
@@ -332,7 +344,8 @@ def explore_program(item):
     return uniq, dict(cnt)
 
 
-UOD_KINDS = ("L", "L2", "A", "B", "Boom", "I")
+UOD_KINDS = ("L", "L2", "A", "B", "C", "Boom", "I")
+KINDS_OVC = ["B", "C", "WaI", "M"]      # OvB sits in a second overlap list with OvC
 
 
 def corpus(ctx):
@@ -342,6 +355,8 @@ def corpus(ctx):
     def add(kinds, n, xs_dev, xs_dev2=(), only=None, dev_if=None):
         for f in filter(pgen.no_empty_openers, pgen.forests(kinds, n, 2)):
             flat = pgen.kinds_flat(f)
+            if kinds is KINDS_OVC and not ("B" in flat and "C" in flat):
+                continue
             if not any(k in UOD_KINDS for k in flat) or (only is not None and f not in only):
                 continue
             watch = "WaI" in flat
@@ -353,6 +368,8 @@ def corpus(ctx):
         add(KINDS, 1, X_DEV)
         add(KINDS, 2, X_DEV)
         add(KINDS, 3, X_DEV, dev_if=set(pgen.forests(KINDS3, 3, 2)))
+        add(KINDS_OVC, 2, X_DEV)
+        add(KINDS_OVC, 3, X_DEV)
         bounds = (f"<=3 statements over {KINDS}, In1 rising before every tick of {X_ALL} for programs with a Watch; one deviation at "
                   f"every tick 1..{T_DEV} for <=2 statements and for 3 statements over {KINDS3}, with In1 rising before tick {X_DEV}")
     else:
@@ -362,10 +379,12 @@ def corpus(ctx):
             add(KINDS, n, X_ALL, only=set(pgen.forests(KINDS, n, 2)) - small)
         add(KINDS, 3, (0, 3, 5, 7))
         add(KINDS4, 4, X_DEV)
+        for n in (2, 3, 4):
+            add(KINDS_OVC, n, X_ALL if n < 4 else X_DEV)
         bounds = (f"<=3 statements over {KINDS} and 4 statements over {KINDS4}, In1 rising before every tick of {X_ALL} for programs "
                   f"with a Watch; one deviation at every tick 1..{T_DEV} (<=2 statements: every In1 tick; 3: ticks 0,3,5,7; 4: {X_DEV}); "
                   f"two deviations for <=2 statements over {KINDS4} (In1 rising before tick {X_DEV})")
-    return items, bounds + "; openers with empty body excluded; programs without any UOD command excluded"
+    return items, bounds + f"; programs with OvB and OvC (second overlap list) over {KINDS_OVC} up to 3 (thorough 4) statements; openers with empty body excluded; programs without any UOD command excluded"
 
 
 CLASSES = ["class:requests-in-same-tick", "class:request-while-older-alive:adjacent-tick", "class:request-while-older-alive:far-apart",
